@@ -36,7 +36,8 @@ CLAIMED = {
          'gin.config by random histories of finalize, nested unlock blocks (normal and raising exit), binds, registrations, clears and '
          'data-driven hooks, with an independent Python reference state machine judging the implementation.',
          BASE + 'Hooks are characterised by what they return or raise.'),
- 'C14': ('Theorems resolve_sound / resolve_none_iff / resolve_first (location-major, reader-minor order) / resolve_absolute / '
+ 'C14': ('Theorems includes_are_inplace (parsing a text with includes = parsing its flattening, to any nesting depth, up to provenance / '
+         'import bookkeeping: same bindings, same error class; mutual induction over nested statements) / includes_same_config / resolve_sound / resolve_none_iff / resolve_first (location-major, reader-minor order) / resolve_absolute / '
          'missing_include_applies_nothing / include_applies_in_place (state threading and returned include/import tree) / '
          'entry_point_bindings_then_finalize / entry_point_missing_file_stops hold for every file tree, location and reader list; tied '
          'to gin.config by include trees in real temporary files parsed through all three entry points (default arguments), compared '
@@ -152,15 +153,17 @@ CLAIMED = {
          'shapes x 3 APIs x scoped/unscoped, enumerated completely on every run.',
          BASE + 'Partial: instance class, functools.wraps metadata and pickling are CPython\'s; they are checked on the real code only '
          '(finite table), the theorems cover the registration state machine and the decision table.'),
- 'C19': ('Theorems resolve_follows_attrs / unbound_first_is_name_error / follow_append / same_object_same_key / boundName_forms / '
+ 'C19': ('Theorems emitted_selector_resolves (every selector the import manager of config_str() emits resolves, in a file making exactly '
+         'its imports in any order, to the object it was built for - also after re-aliasing) / bound_names_distinct / inv_addAll / '
+         'resolve_follows_attrs / unbound_first_is_name_error / follow_append / same_object_same_key / boundName_forms / '
          'import_binds / gin_is_reserved / enabling_rules / include_isolated hold for every object graph, symbol table and statement list; '
          'the mirror (per-file symbol table, attribute-chain resolution, bindings keyed by the resolved object) is tied to gin.config by '
          'generated files over a real package tree (harness/c19pkg: packages, re-exported names, nested class, methods, colliding leaf '
          'names) with random import forms, aliases, spellings, includes and sequential parse calls, plus a malformed stream; oracles on '
          'the real code: bindings sit on the intended Python objects, and config_str() parsed back gives the same per-object bindings.',
          BASE + 'Partial: the object graph is extracted from the real package by introspection; __import__/getattr are CPython\'s; '
-         'reference re-initialisation after re-registration and the ImportManager\'s re-aliasing are covered by the round-trip oracle only, '
-         'not by theorems; every generated file enables dynamic registration. D19 was found by this check and repaired (fix: a0ac27e).'),
+         'reference re-initialisation after re-registration is covered by the round-trip oracle only; the import manager mirror '
+         '(Gin/ImportMgr.lean) is compared with ImportManager(_IMPORTS) on every case; every generated file enables dynamic registration. D19 was found by this check and repaired (fix: a0ac27e).'),
 }
 REASON_PENDING = 'check not built yet in this round; planned with the same technique (DESIGN.md §6, §9) - nothing is claimed until the check exists'
 
